@@ -51,6 +51,8 @@ pub struct C14 {
     pub r_rewrap_at: Option<u32>,
     /// call the reader()/reader_mut()/writer()/writer_mut() accessors between calls without doing I/O through them
     pub touch: bool,
+    /// the source overwrites the unfilled part of the buffer it is given
+    pub scribble: bool,
 }
 
 const HOSTILE_MIN: u32 = 600 * 1024;
@@ -394,6 +396,7 @@ impl<'a> FamVisitor for RVisit<'a> {
         let budget = s.r_src.len() as u64 + 4 * (n + 2) + 16;
         let core = SrcCore::new(stream.clone(), s.r_src.clone(), layout, budget, obs.clone());
         core.borrow_mut().allow_fatal = s.r_fatal;
+        core.borrow_mut().scribble = s.scribble;
         let init = garbage(s.r_init_buf as usize);
         let init_cap = init.capacity();
         let mut reader = Reader::with_buffer(SimSource(core.clone()), init);
@@ -590,6 +593,7 @@ impl Scenario for C14 {
             .set("w_rewrap_at", self.w_rewrap_at)
             .set("r_rewrap_at", self.r_rewrap_at)
             .set("touch", self.touch)
+            .set("scribble", self.scribble)
     }
     fn from_json(j: &Json) -> Result<Self, String> {
         let u = |k: &str| j.get(k).and_then(|c| c.as_u64()).unwrap_or(0);
@@ -613,6 +617,7 @@ impl Scenario for C14 {
             w_rewrap_at: j.get("w_rewrap_at").and_then(|c| c.as_u64()).map(|c| c as u32),
             r_rewrap_at: j.get("r_rewrap_at").and_then(|c| c.as_u64()).map(|c| c as u32),
             touch: b("touch"),
+            scribble: b("scribble"),
         })
     }
     fn run(&self, obs: &mut Obs) -> Result<(), Violation> {
@@ -686,6 +691,7 @@ impl Scenario for C14 {
         reset!(w_rewrap_at, None);
         reset!(r_rewrap_at, None);
         reset!(touch, false);
+        reset!(scribble, false);
         if self.family != Ty::Str && self.family != Ty::U64 {
             for t in [Ty::U64, Ty::Str] {
                 let items: Vec<WKind> = self
@@ -725,6 +731,7 @@ fn base(family: Ty, items: Vec<WKind>) -> C14 {
         w_rewrap_at: None,
         r_rewrap_at: None,
         touch: false,
+        scribble: false,
     }
 }
 
@@ -997,6 +1004,7 @@ impl Property for P14 {
             w_rewrap_at: if r.chance(1, 6) { Some(r.below(nitems as u64) as u32) } else { None },
             r_rewrap_at: if r.chance(1, 6) { Some(r.below(nitems as u64 + 1) as u32) } else { None },
             touch: r.chance(1, 3),
+            scribble: r.chance(1, 3),
         }
     }
 
